@@ -131,6 +131,35 @@ func refExclude(patterns []string) map[string]int {
 	return fate
 }
 
+// malformedEvaluated: does the pattern set hold a glob that path.Match rejects and that the
+// exclusion has to evaluate (a table glob always is; a child glob only for a matching table)?
+func malformedEvaluated(patterns []string) bool {
+	for _, p := range patterns {
+		parts := strings.Split(p, ".")
+		tglob, tk := sel(parts[0])
+		if _, err := path.Match(tglob, "x"); err != nil {
+			return true
+		}
+		if len(parts) == 1 {
+			continue
+		}
+		cglob, ck := sel(parts[1])
+		if _, err := path.Match(cglob, "x"); err == nil {
+			continue
+		}
+		// (a selector naming no kind a table's child can have leaves the glob unevaluated.)
+		if !selected(ck, "column") && !selected(ck, "index") && !selected(ck, "fk") && !selected(ck, "check") {
+			continue
+		}
+		for _, e := range elems {
+			if e.kind == "table" && selected(tk, "table") && match(tglob, e.name) {
+				return true
+			}
+		}
+	}
+	return false
+}
+
 func observe(s *schema.Schema) map[string]bool {
 	got := map[string]bool{}
 	for _, t := range s.Tables {
@@ -205,6 +234,21 @@ func evalExclude(ctx context.Context, c ExCase) (res ExResult) {
 			}
 		}
 	}
+	if malformedEvaluated(c.Patterns) {
+		// a pattern that cannot be evaluated must be reported, not read as "matches everything / nothing".
+		if _, err := e.Atlas.InspectSchema(ctx, "main", &schema.InspectOptions{Exclude: c.Patterns}); err == nil {
+			bad("InspectSchema: the malformed pattern in %q was accepted", c.Patterns)
+		}
+		q := make([]string, len(c.Patterns))
+		for i, p := range c.Patterns {
+			q[i] = "main." + p
+		}
+		if _, err := e.Atlas.InspectRealm(ctx, &schema.InspectRealmOption{Exclude: q}); err == nil {
+			bad("InspectRealm: the malformed pattern in %q was accepted", q)
+		}
+		res.Excluded = 1
+		return
+	}
 	s, err := e.Atlas.InspectSchema(ctx, "main", &schema.InspectOptions{Exclude: c.Patterns})
 	if err != nil {
 		bad("InspectSchema: %v", err)
@@ -229,7 +273,7 @@ func evalExclude(ctx context.Context, c ExCase) (res ExResult) {
 func patterns() []string {
 	var out []string
 	tabs := []string{"*", "t*", "t1", "t?", "[a-t]1", "x", "users", "t1v", "t", "user"}
-	kids := []string{"", "*", "c*", "id", "idx_*", "fk*", "ck*", "id?"}
+	kids := []string{"", "*", "c*", "id", "idx_*", "fk*", "ck*", "id?", "[a"}
 	sels := []string{"", "[type=table]", "[type=column]", "[type=index|fk]", "[type=check]", "[type=view]", "[type=index]", "[type=column|check]", "[type=table|view]"}
 	for _, t := range tabs {
 		for _, k := range kids {
@@ -388,7 +432,7 @@ func minus(a, b []string) []string {
 
 func Run(r *report.Run) {
 	ctx := context.Background()
-	r.Rule = "(a) exclude: a SQLite database with colliding names (4 tables, a view, columns/indexes/foreign keys/checks) on a real engine x every pattern table[.child][selector] from 10 table globs x 8 child globs x 9 type selectors (quick: every single pattern; thorough: every unordered pair), through InspectSchema and InspectRealm, compared element by element with a reference of the pattern semantics built on path.Match; (b) skip: per dialect a change set containing every skippable kind at every nesting level x all 2^15 subsets of the policy kinds {Add,Drop,Modify} x {Schema,Table,Column,Index,ForeignKey}: the change tree must equal the unskipped diff with the skipped kinds filtered out recursively, also when the policy is handed over as several options; (c) end to end: real `atlas schema apply --auto-approve` on a SQLite file whose current and desired states disagree on 3 tables and 3 columns (one per way a plan can touch a resource) x every set of <=2 of 9 exclude patterns x {--exclude flags, env exclude} x {no dev database, dev database} x desired state {HCL file, database URL}, and all 15 non-empty subsets of diff.skip {add_table, drop_table, add_column, drop_column} in a project file (in the env's diff block, or in the project-level diff block inherited by an env without / with a diff block of its own): a resource is left exactly as it was iff a pattern matches it / its change kind is skipped, everything else reaches the desired state, rows survive, and a second apply is a no-op; non-trivial = pattern set excluding >=1 element, or a non-empty skip subset; distinct by construction"
+	r.Rule = "(a) exclude: a SQLite database with colliding names (4 tables, a view, columns/indexes/foreign keys/checks) on a real engine x every pattern table[.child][selector] from 10 table globs x 9 child globs (one of them malformed: it must be reported as an error) x 9 type selectors (quick: every single pattern; thorough: every unordered pair), through InspectSchema and InspectRealm, compared element by element with a reference of the pattern semantics built on path.Match; (b) skip: per dialect a change set containing every skippable kind at every nesting level x all 2^15 subsets of the policy kinds {Add,Drop,Modify} x {Schema,Table,Column,Index,ForeignKey}: the change tree must equal the unskipped diff with the skipped kinds filtered out recursively, also when the policy is handed over as several options; (c) end to end: real `atlas schema apply --auto-approve` on a SQLite file whose current and desired states disagree on 3 tables and 3 columns (one per way a plan can touch a resource) x every set of <=2 of 9 exclude patterns x {--exclude flags, env exclude} x {no dev database, dev database} x desired state {HCL file, database URL}, and all 15 non-empty subsets of diff.skip {add_table, drop_table, add_column, drop_column} in a project file (in the env's diff block, or in the project-level diff block inherited by an env without / with a diff block of its own): a resource is left exactly as it was iff a pattern matches it / its change kind is skipped, everything else reaches the desired state, rows survive, and a second apply is a no-op; non-trivial = pattern set excluding >=1 element, or a non-empty skip subset; distinct by construction"
 	r.Assumptions = []string{
 		"indexes/foreign keys built on an excluded column, and foreign keys pointing at an excluded table, are unspecified by the documentation: not judged",
 		"the CLI slice uses one fixed pair of schemas in which every way a plan can touch a resource occurs once",
